@@ -68,7 +68,14 @@ let parse_draws s = List.map int_of_string (unjoin s)
 
 let () =
   let cases = ref 0 and nontrivial = Hashtbl.create 4096 and lineno = ref 0 and samples = ref 0 in
-  let mismatch line op kind what = Printf.printf "MISMATCH line=%d op=%d kind=%s what=%s\n" line op kind what in
+  (* api mismatches are printed as they occur, fidelity mismatches after them: the check plugin
+     examines only the first few mismatching cases of a batch, and a property-level failure must
+     not be hidden behind tie-order differences *)
+  let deferred = Buffer.create 1024 in
+  let mismatch line op kind what =
+    if kind = "api" then Printf.printf "MISMATCH line=%d op=%d kind=%s what=%s\n" line op kind what
+    else if Buffer.length deferred < 200000 then
+      Buffer.add_string deferred (Printf.sprintf "MISMATCH line=%d op=%d kind=%s what=%s\n" line op kind what) in
   (try
     while true do
       let line = input_line stdin in
@@ -223,5 +230,6 @@ let () =
       end
     done
   with End_of_file -> ());
+  print_string (Buffer.contents deferred);
   Printf.printf "STAT cases=%d\nSTAT nontrivial=%d\n" !cases (Hashtbl.length nontrivial);
   Hashtbl.iter (fun k v -> Printf.printf "STAT %s=%d\n" k v) counters
